@@ -350,12 +350,12 @@ func c04Handwritten() []string {
 func init() {
 	register(&CheckDef{
 		ID:   "C04",
-		Rule: "programs: a function whose body nests `ফেরত` under every path of depth <=3 over {block, if-then, if-else, while, for} (155 paths) x {first, second iteration} x {with value, without}, with tagged prints after the return at every level; 0-4 parameters x 0-5 arguments with unique values; non-callable callees of every kind; recursion (factorial, fibonacci, mutual, depth 500), callbacks through arrays/objects; counter factories with every interleaving of <=4 (quick) / <=6 (thorough) calls over the closures of 1-3 factory activations stored in arrays, objects and variables; seeded random compositions. Each through the real interpreter in-process and (all enumerated families except interleavings) through the binary, compared with refborno's closure model. Non-trivial = distinct program in which at least one user function call executes.",
+		Rule: "programs: a function whose body nests `ফেরত` under every path of depth <=3 over {block, if-then, if-else, while, for} (155 paths) x {first, second iteration} x {with value, without}, with tagged prints after the return at every level; 0-4 parameters x 0-5 arguments with unique values; non-callable callees of every kind; one call expression executed repeatedly while its callee name is rebound (wrapper, loop, parameter named like a global function); runs that have already made 70 000 - 2 500 000 calls of built-ins, user functions and closures; recursion (factorial, fibonacci, mutual, depth 500), callbacks through arrays/objects; counter factories with every interleaving of <=4 (quick) / <=6 (thorough) calls over the closures of 1-3 factory activations stored in arrays, objects and variables; seeded random compositions. Each through the real interpreter in-process and (all enumerated families except interleavings) through the binary, compared with refborno's closure model. Non-trivial = distinct program in which at least one user function call executes.",
 		Assumptions: []string{"break/continue reaching a function body outside a loop, duplicate parameters, and redeclaring a function's own name/parameters are out of domain"},
 		Run:         c04Run,
 		Judge:       c04Judge,
 		MustCount: func(c *Ctx) []string {
-			out := []string{"return_inside_while", "return_inside_for", "programs_with_3plus_closures", "recursion_depth_100plus", "fault:Arity", "fault:NotCallable", "gen:closure-interleavings", "cli_runs"}
+			out := []string{"return_inside_while", "return_inside_for", "programs_with_3plus_closures", "recursion_depth_100plus", "fault:Arity", "fault:NotCallable", "gen:closure-interleavings", "gen:function-name-rebinding", "gen:long-call-histories", "cli_runs"}
 			return out
 		},
 	})
